@@ -544,6 +544,11 @@ func (x *MessageSubsidy) Check() lib.ErrorI {
 	if len(x.Opcode) > 100 {
 		return ErrInvalidOpcode()
 	}
+	// a subsidy funds the reward pool of a committee: ids above MaxChainId are the escrow / holding / liquidity pools
+	// of other chains, whose balances must only change through the order book and the DEX
+	if x.ChainId > MaxChainId {
+		return ErrInvalidChainId()
+	}
 	return nil
 }
 
